@@ -575,8 +575,12 @@ class Kernel:
             # the share of the slots that idle keep-alive connections may hold is worker_connections - threads: connections that
             # were parked before this handler even started, and still are, were all counted when it decided to keep its own alive
             lim = self.worker_connections - self.threads
+            # (not counted: parked connections the loop may be taking out of the keep-alive queue at this very moment - those whose
+            # keep-alive time is over, which it reaps, and those with an event pending, which it dispatches; between the loop's
+            # removal from the queue and the close / dispatch this thread would still see them as parked)
             parked = [c.cid for c in self.conns.values() if c is not conn and c.closed_at is None and c.parked_seq is not None
-                      and conn.started_seq is not None and c.parked_seq < conn.started_seq]
+                      and conn.started_seq is not None and c.parked_seq < conn.started_seq
+                      and c.idle_since is not None and c.idle_since + self.keepalive > self.now and not c.inbuf and not c.peer_closed]
             if len(parked) >= max(lim, 0) and self.worker is not None and self.worker.alive:
                 self.violate("keepalive-granted-beyond-the-idle-share",
                              "connection %d was kept alive although %d idle keep-alive connections %s were already parked when its "
